@@ -152,7 +152,7 @@ m("gi-order", "genesis.init", GN, "\t\tif err := updateDepTreeRoot(); err != nil
 m("gi-ignore", "genesis.init", GN, "ProcessDeposit(spec, epc, state, &deps[i], ignoreSignaturesAndProofs)", "ProcessDeposit(spec, epc, state, &deps[i], true)", "GenesisFromEth1")
 m("gi-count", "genesis.init", GN, "DepositCount: common.DepositIndex(len(deps)),", "DepositCount: common.DepositIndex(0),", "GenesisFromEth1.SetEth1Data")
 m("gi-activation", "genesis.init", GN, "if vEff == spec.MAX_EFFECTIVE_BALANCE {", "if vEff >= spec.EFFECTIVE_BALANCE_INCREMENT {", "GenesisFromEth1.activation")
-m("gi-valid", "genesis.init", GN, "return activeCount >= uint64(spec.MIN_GENESIS_ACTIVE_VALIDATOR_COUNT), nil", "return activeCount > 0, nil", "IsValidGenesisState")
+m("gi-valid", "cmp.spec", GN, "return activeCount >= uint64(spec.MIN_GENESIS_ACTIVE_VALIDATOR_COUNT), nil", "return activeCount > 0, nil", "phase0.IsValidGenesisState[")
 # ---- config
 Y = "eth2/configs/yamls/"
 m("cv-quotient", "config.values", Y+"presets/mainnet/phase0.yaml", "INACTIVITY_PENALTY_QUOTIENT: 67108864", "INACTIVITY_PENALTY_QUOTIENT: 33554432", "mainnet.INACTIVITY_PENALTY_QUOTIENT")
@@ -360,7 +360,7 @@ m("cr-retry-unguarded", "cache.recursion", B+"common/validator_pubkeys.go", "\ti
 m("lh-retry-locked", "lock.reentry", B+"common/validator_pubkeys.go", "\t\tpc.rwLock.Unlock()\n\t\treturn pc.AddValidator(index, pub)\n\t}\n\tdefer pc.rwLock.Unlock()\n", "\t\tdefer pc.rwLock.Unlock()\n\t\treturn pc.AddValidator(index, pub)\n\t}\n\tdefer pc.rwLock.Unlock()\n", "AddValidator->AddValidator")
 
 
-m("cmp-near-const", "cmp.spec", B+"common/shuffling.go", "if uint64(spec.MAX_COMMITTEES_PER_SLOT) < committeesPerSlot {", "if uint64(spec.TARGET_COMMITTEE_SIZE) < committeesPerSlot {", "common.CommitteeCount[")
+m("cmp-near-const", "formula.spec", B+"common/shuffling.go", "if uint64(spec.MAX_COMMITTEES_PER_SLOT) < committeesPerSlot {", "if uint64(spec.TARGET_COMMITTEE_SIZE) < committeesPerSlot {", "common.CommitteeCount:")
 
 
 m("lc-crossed-pair", "lit.copy", B+"fork.go", "\t\t\t\tParentRoot:    benv.ParentRoot,\n\t\t\t\tStateRoot:     benv.StateRoot,", "\t\t\t\tParentRoot:    benv.StateRoot,\n\t\t\t\tStateRoot:     benv.ParentRoot,", "EnvelopeToSignedBeaconBlock", nth=4)
